@@ -206,3 +206,27 @@ class _Derived:
         out._values = [c * v for v in self._values]
         out._total = None
         return out
+
+
+_SETTINGS = {"size": 3, "params": {"n": 1.0}}
+
+
+def _setting(name):
+    return _SETTINGS[name]
+
+
+class SharesTableEntry:
+    def __init__(self, params=None):
+        if params is None:
+            params = _setting("params")          # the table's own dictionary
+        self.params = params
+        self.size = _setting("size")
+
+
+class CopiesTableEntry:
+    def __init__(self, params=None):
+        import copy
+        if params is None:
+            params = copy.deepcopy(_setting("params"))
+        self.params = params
+        self.size = _setting("size")
